@@ -605,6 +605,7 @@ def convert_and_observe(hooks, loaded, target, src_node):
     # keyed by identity: malt's cache is keyed by code *equality*, so a function of another module with an equal
     # code object (same text at the same line) is served by the factory made from that other source; such a
     # conversion has no transformation of its own to compare with and is left out of the correspondence
+    o.aliased = hooks.last_transform is None and id(fn.__code__) not in hooks.by_code and o.inst is not None
     if hooks.last_transform is not None:
         hooks.by_code[id(fn.__code__)] = (fn.__code__, hooks.last_transform)
     o.transform = hooks.by_code.get(id(fn.__code__), (None, None))[1]
@@ -930,10 +931,14 @@ def is_cleared_defaults_finding(case):
     if node is None or not fails:
         return False
     a = node.args
-    src_pos = len(a.defaults) > 0
-    src_kw = any(d is not None for d in a.kw_defaults)
-    cleared_pos = src_pos and not fn.__defaults__
-    cleared_kw = src_kw and not fn.__kwdefaults__
+    # the def the cached factory was generated from: the function's own, or (equal code object of another
+    # module converted earlier) another one
+    aliased = bool(case.get('aliased'))
+    src_pos = len(a.defaults) > 0 or aliased
+    src_kw = any(d is not None for d in a.kw_defaults) or aliased
+    cf0 = case['cf']
+    cleared_pos = src_pos and not fn.__defaults__ and bool(cf0 is not None and cf0.__defaults__)
+    cleared_kw = src_kw and not fn.__kwdefaults__ and bool(cf0 is not None and cf0.__kwdefaults__)
     if not (cleared_pos or cleared_kw):
         return False
     allowed = {'signature', 'call'}
@@ -1004,6 +1009,7 @@ def _check(run, tmp):
     n_kinds = {}
     out_of_guarantee = []
     annotation_notes = []
+    n_aliased = [0]
     try:
         items = []
         for name, src in CORPUS:
@@ -1027,6 +1033,34 @@ def _check(run, tmp):
             spec['cleared'] = r.choice(['none', 'empty', 'replaced', 'kw-none', 'pos-none'])
             src, dsrc, decos = render(spec)
             items.append((spec, src, dsrc, decos))
+        # the stream of pairs with EQUAL code objects in different modules: the same function text at the same
+        # line, once with default expressions and once without (malt's cache is keyed by code equality, so the
+        # second conversion is served by the factory generated from the first source)
+        import copy
+        n_alias = 6 if run.tier == 'quick' else 30
+        for i in range(n_alias):
+            spec = gen_spec(r, len(items))
+            spec['kind'] = r.choice(['nested', 'toplevel'])
+            if spec['kind'] == 'toplevel':
+                spec['closure'] = []
+                spec['empty'] = []
+            spec['ndeco'] = 0
+            spec['instances'] = 1
+            spec['sig']['annot'] = False
+            npos = len(spec['sig']['posonly']) + len(spec['sig']['args'])
+            if npos:
+                spec['sig']['ndefaults'] = max(spec['sig']['ndefaults'], 1)
+            if spec['sig']['kwonly']:
+                spec['sig']['kwdefault'][0] = True
+            src, dsrc, decos = render(spec)
+            items.append((spec, src, dsrc, decos))
+            spec2 = copy.deepcopy(spec)
+            spec2['idx'] = len(items)
+            spec2['sig']['ndefaults'] = 0
+            spec2['sig']['kwdefault'] = [False] * len(spec2['sig']['kwonly'])
+            spec2['alias_of'] = src
+            src2, dsrc2, decos2 = render(spec2)
+            items.append((spec2, src2, dsrc2, decos2))
         for spec, src, dsrc, decos in items:
             try:
                 loaded = Loaded(tmp, src, 'm')
@@ -1067,7 +1101,10 @@ def _check(run, tmp):
                     run.nontriv(key)
                 n_kinds[spec['kind'].split(':')[0]] = n_kinds.get(spec['kind'].split(':')[0], 0) + 1
                 info = {'spec': spec, 'src': src, 'fails': fails, 'fn': fn, 'cf': o.cf, 'node': node,
-                        'instance': inst_no, 'error': o.error}
+                        'instance': inst_no, 'error': o.error, 'aliased': o.aliased,
+                        'alias_of': spec.get('alias_of')}
+                if o.aliased:
+                    n_aliased[0] += 1
                 case_info[idx] = info
                 if fails:
                     failures.append(info)
@@ -1110,6 +1147,7 @@ def _check(run, tmp):
     run.extra['kinds'] = n_kinds
     run.extra['out_of_guarantee_observations'] = out_of_guarantee
     run.extra['functions_converted'] = len(case_info)
+    run.extra['conversions_served_by_the_factory_of_an_equal_code_object'] = n_aliased[0]
     if annotation_notes:
         run.extra['annotation_differences_observed'] = annotation_notes[:5]
 
@@ -1151,10 +1189,14 @@ def _check(run, tmp):
 
     # ---- verdict
     reported = set()
+    kf_counts = {'alias': 0, 'cleared': 0}
+    run.extra['known_finding_instances'] = kf_counts
     real = 0
     for info in failures:
         kinds = tuple(sorted(set(k for k, _ in info['fails'])))
         classify = KF_CLEARED if is_cleared_defaults_finding(info) else None
+        if classify:
+            kf_counts['alias' if info.get('aliased') else 'cleared'] += 1
         sig = (classify, kinds)
         if classify is None:
             real += 1
@@ -1164,7 +1206,11 @@ def _check(run, tmp):
         how = {'none': 'f.__defaults__ = None; f.__kwdefaults__ = None', 'pos-none': 'f.__defaults__ = None',
                'kw-none': 'f.__kwdefaults__ = None', 'empty': 'f.__defaults__ = (); f.__kwdefaults__ = {}',
                'replaced': 'f.__defaults__ / f.__kwdefaults__ replaced by new objects'}.get(info['spec'].get('cleared'))
+        if info.get('aliased'):
+            how = ('(none) -- but an equal code object was converted first: load `converted_first_module_source` '
+                   'and convert its mk(0)[0] before this one')
         rep = {'what': [m for _, m in info['fails']][:6], 'failure_kinds': list(kinds),
+               'converted_first_module_source': info.get('alias_of') if info.get('aliased') else None,
                'kind': info['spec']['kind'], 'module_source': info['src'],
                'instance': info['instance'], 'after_definition': how,
                'conversion_error': info['error'],
